@@ -34,7 +34,7 @@ KB_EV = 8.617333262e-5
 COUNTS = [0, 1, 2, 7]
 SHAPES = [(2, 2, 1), (1, 3, 2), (2, 2, 2)]
 TEMPS = [1.0, 77.0, 300.0, 1000.0, 20000.0]  # 20000 K: kT > 1 eV
-SCALES = [1, 0.125, 1.0 / 3.0, 'float32', 'fortran', 'transposed-view']
+SCALES = [1, 0.125, 1.0 / 3.0, 'float32', 'fortran', 'transposed-view', 'uint8', 'int16']
 
 
 def shards(tier, seed):
@@ -137,6 +137,8 @@ def run_shard(shard) -> Result:
         for si, scale in enumerate(SCALES if (n <= 6 or sum(vals) % 3 == 0) else SCALES[:1]):
             if scale == 'fortran':
                 data = np.asfortranarray(base.astype(float))
+            elif scale in ('uint8', 'int16'):
+                data = base.astype(scale)  # small count types: the result must still be computed in double precision
             elif scale == 'transposed-view':
                 data = np.ascontiguousarray(base.astype(float).transpose(2, 1, 0)).transpose(2, 1, 0)  # same values, non-C-contiguous view
             else:
